@@ -40,6 +40,12 @@ def specRun : SpecSt → List Op → SpecSt
 def SpecSt.matching (s : SpecSt) (bus : BusId) (pgn : Nat) (i : Id) : Prop :=
   ∃ p, s.h i = some (p, some bus) ∧ (p = 0 ∨ p = pgn)
 
+/-- the PGN a live handler is registered for -/
+def specPgn (s : SpecSt) (i : Id) : Nat :=
+  match s.h i with
+  | some v => v.1
+  | none => 0
+
 /-- what the pointer world says about the handlers, forgetting `pNext` and the head pointers -/
 def view (w : World) : SpecSt :=
   ⟨fun i => (w.obj i).map fun o => (o.pgn, o.owner), w.cb⟩
